@@ -190,6 +190,11 @@ func (m *TransferShare) handlerTransferShares(
 	from, to common.Address,
 	sharesInt *big.Int,
 ) (*big.Int, *big.Int, error) {
+	// the delegation is loaded twice below (as sender and as recipient): with from == to the
+	// stale recipient copy would be written last and the transferred shares created from nothing
+	if from == to {
+		return nil, nil, errors.New("from and to cannot be the same")
+	}
 	validator, err := m.stakingKeeper.GetValidator(ctx, valAddr)
 	if err != nil {
 		return nil, nil, err
